@@ -183,7 +183,9 @@ Delivery(src, dst, m, dr) ==
      THEN [dr |-> dr2,
            dl |-> <<[dst |-> dst, kind |-> IF d.ver < 1 THEN "none" ELSE "nope", ver |-> d.ver, fn |-> m.fn, tn |-> m.tn,
                           rssi |-> <<-110, -110>>, toa |-> <<0, 0>>, ci |-> <<-30, -30>>,
-                          mod |-> "none", tscs |-> {-1}, bits |-> <<>>]>>]
+                          mod |-> "none", tscs |-> {-1},
+                          \* (for a burst suppressed on a version-0 link: the bits that must NOT appear)
+                          bits |-> IF d.ver < 1 /\ m.burst.has THEN MapSeq(SoftOfHard, m.burst.bits) ELSE <<>>]>>]
      ELSE [dr |-> dr2,
            dl |-> <<[dst |-> dst, kind |-> "burst", ver |-> d.ver, fn |-> m.fn, tn |-> m.tn,
                      rssi |-> rssiW, toa |-> <<toaW[1] - taShift, toaW[2] - taShift>>,
